@@ -24,6 +24,9 @@ impl Engine for ObeyEngine {
                     (Some(a), Some(b), Some(c), Some(d), Some(e), Some(f), Some(g)) => (a as u16, b as u32, c as u16, d as u16, e as u32, f as u16, g as usize),
                     _ => return out.push("bad-op".into()),
                 };
+                // `stray:ID`: the broker sends Channel.CloseOk for channel ID (never opened) right after the
+                // handshake - tolerated by the client and without effect
+                let strays: Vec<u16> = sizes.iter().filter_map(|s| s.strip_prefix("stray:").and_then(|x| x.parse().ok())).collect();
                 let sizes: Vec<usize> = sizes.iter().filter_map(|s| s.parse().ok()).collect();
                 let (stream, peer) = mock::pair();
                 let stop = Arc::new(AtomicBool::new(false));
@@ -51,6 +54,13 @@ impl Engine for ObeyEngine {
                         }
                     };
                     let _ = tx.send("open ok".into());
+                    for id in &strays {
+                        peer2.push(&broker::method(*id, amq_protocol::protocol::AMQPClass::Channel(amq_protocol::protocol::channel::AMQPMethod::CloseOk(amq_protocol::protocol::channel::CloseOk {}))));
+                    }
+                    if !strays.is_empty() {
+                        peer2.wait_drained(Duration::from_secs(2));
+                        std::thread::sleep(Duration::from_millis(30));
+                    }
                     // channels: automatic ids until the table is full (or nopen)
                     let mut chans = Vec::new();
                     let mut ids = Vec::new();
